@@ -316,10 +316,10 @@ func (self *linkedPairs) Get(key string) (*Pair, int) {
 		i, ok := self.index[caching.StrHash(key)]
 		if ok {
 			n := self.At(i)
-			if n.Key == key {
+			if n != nil && n.Key == key {
 				return n, i
 			}
-			// hash conflicts
+			// hash conflicts, or a stale entry left behind by a removed pair
 			goto linear_search
 		} else {
 			return nil, -1
